@@ -255,12 +255,23 @@ async fn run(case: &Case, rep: &mut CaseReport) -> Option<(String, String)> {
     let mut completed = false;
     let mut delivered_count = 0usize;
     let mut late_records: Vec<ids::Id> = Vec::new(); // records that only appear in packets #16+
+    // the requester stops collecting once it holds max_nodes_response records: the packet that arrives
+    // then is still validated, and completes the request
+    let q_max_model = max_nodes_response.unwrap_or(16);
+    let mut received_valid = 0usize;
     let mut early_ids: HashSet<ids::Id> = HashSet::new();
     for resp in &deliveries {
         let ResponseBody::Nodes { total, nodes } = &resp.body else { continue };
         delivered_count += 1;
         let before_complete = !completed;
+        let holds_enough = received_valid >= q_max_model;
         if before_complete && delivered_count <= 15 {
+            for e in nodes {
+                let dd = if e.node_id().raw() == p_id { 0 } else { dist(&p_id, e) };
+                if wanted.contains(&dd) {
+                    received_valid += 1;
+                }
+            }
             for e in nodes {
                 early_ids.insert(e.node_id().raw());
                 let d = if e.node_id().raw() == p_id { 0 } else { dist(&p_id, e) };
@@ -281,7 +292,7 @@ async fn run(case: &Case, rep: &mut CaseReport) -> Option<(String, String)> {
         }
         // completion model (external): the request is complete once as many packets as announced
         // by the packet that completes it were processed, or 15
-        if before_complete && (*total <= 1 || delivered_count as u64 >= *total || delivered_count >= 15) {
+        if before_complete && (*total <= 1 || delivered_count as u64 >= *total || delivered_count >= 15 || holds_enough) {
             completed = true;
         }
     }
